@@ -104,13 +104,22 @@ void *realloc(void *p, size_t n)
     if (p == NULL) return malloc(n);
     __CPROVER_assert(__CPROVER_POINTER_OFFSET(p) == 0, "realloc: pointer is the start of a block");
     vs_check_block(p);
-    r = (char *) malloc(n);
     m = vs_req[__CPROVER_POINTER_OBJECT(p) % VS_OBJS];
-    if (n < m) m = n;
-    memcpy(r, p, m);
+    __CPROVER_assert(n <= VS_FAT, "malloc model: request fits the fixed block capacity of this unit");
+    r = (char *) __CPROVER_allocate(VS_FAT, 0);
+    vs_req[__CPROVER_POINTER_OBJECT(r) % VS_OBJS] = (unsigned char) n;
+    /* constant-size block copy (a copy of min(old, new) bytes with a symbolic length goes through the array
+     * theory); the bytes beyond min(old, new) are then made arbitrary / canary again at the ghost index */
+    memcpy(r, p, VS_FAT);
+    if (vg_k2 >= m && vg_k2 < VS_FAT) r[vg_k2] = nondet_char();
+    if (vg_k2 >= n && vg_k2 < VS_FAT) r[vg_k2] = VS_CANARY;
     free(p);
     return r;
 }
+/* objects (SPIF_ALLOC): exact-size allocation that keeps the struct type (cbmc types a block from the
+ * sizeof expression of the request; a fat char block accessed through struct pointers is encoded bytewise
+ * and makes the units intractable).  B units re-bind SPIF_ALLOC(type) to this; same request, same size. */
+#define VS_ALLOC_OBJ(type) ((SPIF_TYPE(type)) __CPROVER_allocate(SPIF_SIZEOF_TYPE(type), 0))
 #endif /* VERIF_SPLIT_PRECISE */
 
 /* Deterministic loop-free strchr (tier P units that need IS_DELIM(c) to give the same answer when it is
